@@ -704,17 +704,33 @@ Definition skel_eqb (g : mol) (sk : list Z * list (Z * list Z)) : bool :=
 Definition all_true (l : list bool) : bool := forallb (fun x => x) l.
 (* MoleculeContainer.compose: observed set iteration orders; result with insertion orders; the canonical-order compose
    agrees after sorting; center_atoms; operands well-formed *)
-Definition mc_parts (o1 o2 o3 : list Z) (r p : mol) (exp : pyres cgr) (centre : list Z) : list bool :=
+(* the locals of compose at its return: ha, bonds (append order), adj (insertion orders) *)
+Definition trace_t := (list (Z * datom) * list (Z * Z * dbond) * list (Z * list (Z * (option Z * option Z))))%type.
+Definition trace_eqb (a b : trace_t) : bool :=
+  match a, b with
+  | (ha, bs, adj), (ha', bs', adj') =>
+      list_eqb (pair_eqb Z.eqb datom_eqb) ha ha' &&
+      list_eqb (fun x y => Z.eqb (fst (fst x)) (fst (fst y)) && Z.eqb (snd (fst x)) (snd (fst y)) && dbond_eqb (snd x) (snd y)) bs bs' &&
+      list_eqb (pair_eqb Z.eqb (list_eqb (pair_eqb Z.eqb (pair_eqb (option_eqb Z.eqb) (option_eqb Z.eqb))))) adj adj'
+  end.
+Definition trace_ok (o1 o2 o3 : list Z) (r p : mol) (tr : option trace_t) : bool :=
+  match tr with
+  | None => true
+  | Some t => match compose_trace o1 o2 o3 r p with Ok t' => trace_eqb t' t | Err _ => false end
+  end.
+Definition mc_parts (o1 o2 o3 : list Z) (r p : mol) (exp : pyres cgr) (centre : list Z) (tr : option trace_t) : list bool :=
   [ pyres_eqb cgr_eqb (compose_ord o1 o2 o3 r p) exp;
     pyres_eqb cgr_eqb (map_res cgr_norm (compose r p)) (map_res cgr_norm exp);
     match exp with Ok h => list_eqb Z.eqb (zlsort (center_atoms h)) centre && wf_cgr h | Err _ => true end;
-    wf_mol r && wf_mol p ].
-Definition mc_ok o1 o2 o3 r p exp centre : bool := all_true (mc_parts o1 o2 o3 r p exp centre).
-Definition mc_part (k : nat) o1 o2 o3 r p exp centre : bool := nth k (mc_parts o1 o2 o3 r p exp centre) false.
+    wf_mol r && wf_mol p;
+    trace_ok o1 o2 o3 r p tr ].
+Definition mc_ok o1 o2 o3 r p exp centre tr : bool := all_true (mc_parts o1 o2 o3 r p exp centre tr).
+Definition mc_part (k : nat) o1 o2 o3 r p exp centre tr : bool := nth k (mc_parts o1 o2 o3 r p exp centre tr) false.
 (* ReactionContainer.compose: the two unions, then compose *)
 Definition rx_parts (o1 o2 o3 : list Z) (rs gs ps : list mol) (ur up : list Z * list (Z * list Z)) (exp : pyres cgr) (centre : list Z)
-  (truth : option (list Z * list (Z * Z))) : list bool :=
-  [ skel_eqb (union_all (gs ++ rs)) ur;      (* atom order and neighbour orders of the two unions (renumbered on collisions); *)
+  (truth : option (list Z * list (Z * Z))) (tr : option trace_t) : list bool :=
+  [ trace_ok o1 o2 o3 (union_all (gs ++ rs)) (union_all ps) tr;
+    skel_eqb (union_all (gs ++ rs)) ur;      (* atom order and neighbour orders of the two unions (renumbered on collisions); *)
     skel_eqb (union_all ps) up;              (* their atoms and bonds are compared through the condensed graph below *)
     pyres_eqb cgr_eqb (rxn_compose_ord o1 o2 o3 rs gs ps) exp;
     pyres_eqb cgr_eqb (map_res cgr_norm (rxn_compose rs gs ps)) (map_res cgr_norm exp);
@@ -724,8 +740,8 @@ Definition rx_parts (o1 o2 o3 : list Z) (rs gs ps : list mol) (ur up : list Z * 
     | Some (atoms, bonds), Ok h => list_eqb Z.eqb (dynamic_atoms h) atoms && list_eqb (pair_eqb Z.eqb Z.eqb) (dynamic_bonds h) bonds
     | _, _ => true
     end ].
-Definition rx_ok o1 o2 o3 rs gs ps ur up exp centre truth : bool := all_true (rx_parts o1 o2 o3 rs gs ps ur up exp centre truth).
-Definition rx_part (k : nat) o1 o2 o3 rs gs ps ur up exp centre truth : bool := nth k (rx_parts o1 o2 o3 rs gs ps ur up exp centre truth) false.
+Definition rx_ok o1 o2 o3 rs gs ps ur up exp centre truth tr : bool := all_true (rx_parts o1 o2 o3 rs gs ps ur up exp centre truth tr).
+Definition rx_part (k : nat) o1 o2 o3 rs gs ps ur up exp centre truth tr : bool := nth k (rx_parts o1 o2 o3 rs gs ps ur up exp centre truth tr) false.
 (* ReactionContainer.__format__ for the four combinations of !c and !x; the molecule-level facts the theorems assume *)
 Definition roles_eqb (a b : roles) : bool :=
   match a, b with (x, y, z), (x', y', z') => list_eqb String.eqb x x' && list_eqb String.eqb y y' && list_eqb String.eqb z z' end.
@@ -776,7 +792,7 @@ def localise(name, cases, failing, nparts):
     return 'failing parts (case, part): ' + str([where[j] for j in bad])
 
 
-NPARTS = {'mc_ok': 4, 'rx_ok': 6, 'fmt_ok': 6}
+NPARTS = {'mc_ok': 5, 'rx_ok': 7, 'fmt_ok': 6}
 
 
 def cstr_any(text):
@@ -799,13 +815,41 @@ def cstr_any(text):
     return '(' + ' ++ '.join(parts) + ')%string'
 
 
+def traced(fn):
+    """run fn() and read the locals of MoleculeContainer.compose at its return: the list `bonds` (append order), the defaultdict
+    `adj` (insertion orders) and the dict of the atoms of the result; returns (result or exception, trace term or None)"""
+    import sys
+    from chython import MoleculeContainer
+    code = MoleculeContainer.compose.__code__
+    got = {}
+
+    def prof(frame, event, arg):
+        if event == 'return' and frame.f_code is code and arg is not None:
+            loc = frame.f_locals
+            got['bonds'] = [(n, m, dbond_term(bd)) for n, m, bd in loc['bonds']]
+            got['adj'] = [(n, [(m, tuple(v)) for m, v in d.items()]) for n, d in loc['adj'].items()]
+            got['ha'] = [(n, datom_term(a)) for n, a in loc['ha'].items()]
+    sys.setprofile(prof)
+    try:
+        res = fn()
+    except Exception as e:
+        res = e
+    finally:
+        sys.setprofile(None)
+    if not got:
+        return res, 'None'
+    ha = lst([tup(zraw(n), t) for n, t in got['ha']])
+    bonds = lst([tup(zraw(n), zraw(m), t) for n, m, t in got['bonds']])
+    adj = lst([tup(zraw(n), lst([tup(zraw(m), tup(opt(v[0], zraw), opt(v[1], zraw))) for m, v in d])) for n, d in got['adj']])
+    return res, f'(Some ({ha}, {bonds}, {adj}))'
+
+
 def real_compose(r, p):
     """(result term, centre term, cgr or None)"""
-    try:
-        h = r ^ p
-    except Exception as e:
-        return exn_term(e), '[]', None
-    return f'Ok {cgr_term(h)}', zl(sorted(h.center_atoms)), h
+    h, trace = traced(lambda: r ^ p)
+    if isinstance(h, Exception):
+        return exn_term(h), '[]', None, 'None'
+    return f'Ok {cgr_term(h)}', zl(sorted(h.center_atoms)), h, trace
 
 
 def small_space(ck, rng, full):
@@ -855,6 +899,17 @@ def small_space(ck, rng, full):
             variant = rng.randrange(5)
             shuffle = rng.random() < 0.5
             out.append((('small4', variant, i, 0, shuffle), build(gs4[0], 0, shuffle), build(gs4[1], variant, shuffle)))
+    if full:
+        # thorough: ALL pairs of graphs over atoms {1,2,3,4} with bond orders absent / 1 (113 graphs, 12769 pairs)
+        g4 = []
+        for k in range(5):
+            for atoms in itertools.combinations((1, 2, 3, 4), k):
+                pairs = list(itertools.combinations(atoms, 2))
+                for orders in itertools.product((None, 1), repeat=len(pairs)):
+                    g4.append((atoms, dict(zip(pairs, orders))))
+        for gi, g in enumerate(g4):
+            for hi, hh in enumerate(g4):
+                out.append((('all4', 0, gi, hi, False), build(g, 0, False), build(hh, 0, False)))
     for variant in range(5):
         for gi, g in enumerate(graphs):
             for hi, h in enumerate(graphs):
@@ -872,8 +927,8 @@ def corr_compose(ck, rxns):
     # (1) molecule level: small exhaustive space
     for tok, r, p in small_space(ck, rng, ck.tier != 'quick'):
         o1, o2, o3 = set_orders(r, p)
-        exp, centre, h = real_compose(r, p)
-        cases.append(f'mc_ok {zl(o1)} {zl(o2)} {zl(o3)} {mol_term(r)} {mol_term(p)} ({exp}) {centre}')
+        exp, centre, h, trace = real_compose(r, p)
+        cases.append(f'mc_ok {zl(o1)} {zl(o2)} {zl(o3)} {mol_term(r)} {mol_term(p)} ({exp}) {centre} {trace}')
         meta.append(('mc', tok, r, p))
         ck.case(('mc',) + tok, nontrivial=h is not None and bool(h.center_atoms))
         ck.count('compose:' + tok[0] + ':' + ('ValueError' if h is None else 'centre' if h.center_atoms else 'no centre'))
@@ -887,8 +942,8 @@ def corr_compose(ck, rxns):
     mal.append((('pair', 'empty', 'empty'), MoleculeContainer(), MoleculeContainer(), None))
     for tok, r, p, x in mal:
         o1, o2, o3 = set_orders(r, p)
-        exp, centre, h = real_compose(r, p)
-        cases.append(f'mc_ok {zl(o1)} {zl(o2)} {zl(o3)} {mol_term(r)} {mol_term(p)} ({exp}) {centre}')
+        exp, centre, h, trace = real_compose(r, p)
+        cases.append(f'mc_ok {zl(o1)} {zl(o2)} {zl(o3)} {mol_term(r)} {mol_term(p)} ({exp}) {centre} {trace}')
         meta.append(('mc', tok, r, p))
         ck.case(('mc',) + tok, nontrivial=h is not None and bool(h.center_atoms))
         ck.count('compose:' + tok[0] + ':' + ('ValueError' if h is None else 'centre' if h.center_atoms else 'no centre'))
@@ -903,17 +958,18 @@ def corr_compose(ck, rxns):
             ck.count('compose:rxn:union raises ' + type(e).__name__)
             continue
         o1, o2, o3 = set_orders(ur, up)
-        try:
-            h = ~rxn
+        rxn.flush_cache(keep_molecule_cache=True)
+        h, trace = traced(lambda: ~rxn)
+        if isinstance(h, Exception):
+            h, exp, centre, trace = None, exn_term(h), '[]', 'None'
+        else:
             exp, centre = f'Ok {cgr_term(h)}', zl(sorted(h.center_atoms))
-        except Exception as e:
-            h, exp, centre = None, exn_term(e), '[]'
         mt = lambda ms: lst([mol_term(m) for m in ms])
         truth = 'None'
         if h is not None and x.truth is not None:
             truth = f'(Some ({zl(sorted(x.truth["atoms"]))}, {lst([tup(zraw(a), zraw(c)) for a, c in sorted(x.truth["bonds"])])}))'
         cases.append(f'rx_ok {zl(o1)} {zl(o2)} {zl(o3)} {mt(rxn.reactants)} {mt(rxn.reagents)} {mt(rxn.products)} '
-                     f'{skeleton_term(ur)} {skeleton_term(up)} ({exp}) {centre} {truth}')
+                     f'{skeleton_term(ur)} {skeleton_term(up)} ({exp}) {centre} {truth} {trace}')
         meta.append(('rx', x.desc['idx'], x))
         collide = x.truth is None
         ck.case(('rx', x.desc['idx']), nontrivial=h is not None and bool(h.center_atoms))
@@ -1502,6 +1558,18 @@ def history_run(ck, rxn, tag, cases, meta):
         except Exception as e:
             ck.count(f'history:{name}:not applicable ({type(e).__name__})')
             return
+        # ... and like a reaction built from COPIES of the molecules (no molecule-level cache shared), unless a molecule itself
+        # answers differently from its own copy (a molecule-level stale cache: C13's business, counted, not reported here)
+        try:
+            copies = ReactionContainer([m.copy() for m in r.reactants], [m.copy() for m in r.products], [m.copy() for m in r.reagents])
+            if same and (str(copies) != s1 or cgr_sig(copies) != cgr_sig(r)):
+                if any(str(m) != str(m.copy()) for m in r.molecules()):
+                    ck.count(f'history:{name}:a molecule differs from its own copy (molecule-level cache, C13)')
+                else:
+                    same = False
+                    fresh, sf = copies, str(copies)
+        except Exception:
+            pass
         changed = bool(total) if kind != 'always' else True
         ck.case(('history', tag, name), nontrivial=changed)
         ck.count(f'history:{name}:' + ('changed' if changed else 'unchanged') +
